@@ -79,7 +79,7 @@ func (e *Engine) checkSubjectSetRewrite(
 					return
 				}
 				g := checkgroup.New(ctx)
-				defer func() { resultCh <- g.Result() }()
+				defer func() { resultCh <- g.ResultFor(ctx) }()
 				for _, result := range res {
 					if result.Found {
 						g.SetIsMember()
@@ -207,6 +207,10 @@ func (e *Engine) checkInverted(
 	return func(ctx context.Context, resultCh chan<- checkgroup.Result) {
 		innerCh := make(chan checkgroup.Result)
 		ctx = graph.AdoptVisited(ctx, isolatedCtx)
+		// If the child's "not a member" is only due to the depth or width
+		// limit, it must not be inverted into "member".
+		var truncation checkgroup.TruncationMarker
+		ctx = checkgroup.WithTruncationMarker(ctx, &truncation)
 		go check(ctx, innerCh)
 		verifhook.Point("invert.select")
 		select {
@@ -216,7 +220,12 @@ func (e *Engine) checkInverted(
 			case checkgroup.IsMember:
 				result.Membership = checkgroup.NotMember
 			case checkgroup.NotMember:
-				result.Membership = checkgroup.IsMember
+				if truncation.Truncated() {
+					// fail closed: we did not look far enough to know
+					result.Membership = checkgroup.MembershipUnknown
+				} else {
+					result.Membership = checkgroup.IsMember
+				}
 			}
 			resultCh <- result
 		case <-ctx.Done():
@@ -314,6 +323,6 @@ func (e *Engine) checkTupleToSubjectSet(
 				}
 			}
 		}
-		resultCh <- g.Result()
+		resultCh <- g.ResultFor(ctx)
 	}
 }
